@@ -27,6 +27,8 @@ def defects_of(label):
         return ["descendant-range-zero-width"]
     if rest == "fallback-lost":
         return ["first-child-for-byte-fallback"]
+    if rest == "zero-width-self":
+        return ["prev-sibling-zero-width"]
     if rest == "dead-end-descent":
         return ["cursor-first-child-for-byte-dead-end"]
     if rest == "hidden-missing-printed":
